@@ -96,6 +96,11 @@ class Check:
         os.makedirs(BUILD, exist_ok=True)
         os.makedirs(EVID, exist_ok=True)
         os.makedirs(REPLAY, exist_ok=True)
+        for old in glob.glob(os.path.join(REPLAY, pid + "-*.json")):
+            try:
+                os.remove(old)
+            except OSError:
+                pass
 
     # ------------------------------------------------------------------ util
     def log(self, *a):
@@ -508,9 +513,11 @@ class Check:
         seen = {}
         for what, p, sig in self.violations:
             seen.setdefault(what, []).append(p)
-        for what, ps in seen.items():
-            for p in ps[:3]:
-                print("VIOLATION property=%s replay=%s  (%s; %d case(s) of this kind)" % (self.pid, p, what, len(ps)))
+        for n, (what, ps) in enumerate(seen.items()):
+            if n >= 12:
+                print("... and %d more kinds of violation (see %s)" % (len(seen) - 12, REPLAY))
+                break
+            print("VIOLATION property=%s replay=%s  (%s; %d case(s) of this kind)" % (self.pid, ps[0], what, len(ps)))
         if self.violations:
             return 1
         print("OK property=%s tier=%s states=%d traces=%d wall=%.0fs" % (self.pid, self.tier, self.states, self.traces, wall))
